@@ -89,3 +89,48 @@ func VerifC02History(h *verifh.H) {
 	}
 	h.Observe("seq", g.seq)
 }
+
+// VerifC02ReaderRace: a token-carrying reader reads the change feed while a
+// batch is being written (symbolic scheduling; every Badger transaction start
+// and every marked boundary is a scheduling point). Whatever the interleaving,
+// what the reader saw in its first call plus what it gets when it continues
+// from the token of that call is exactly the feed: nothing skipped, nothing
+// twice.
+func VerifC02ReaderRace(h *verifh.H) {
+	hs := vNewHistory(h, "d")
+	ds := hs.dss["d"]
+	first := &mVersion{ID: "ns0:e1", Props: map[string]string{"ns0:v": "x"}, Refs: map[string][]string{}}
+	h.Assert(ds.StoreEntities([]*Entity{mkEntity(first)}) == nil, "first write")
+	second := &mVersion{ID: "ns0:e2", Props: map[string]string{"ns0:v": "y"}, Refs: map[string][]string{}}
+	limit := h.Choice("limit", 3) // 0: no limit
+	latestOnly := h.Choice("latestOnly", 2) == 1
+	var seen []string
+	var token uint64
+	var rerr, werr error
+	h.SymbolicTxns()
+	h.SymbolicSched(h.Param("preemptions", 1))
+	h.Go(func() {
+		ch, err := ds.GetChanges(0, limit, latestOnly)
+		rerr = err
+		if err == nil {
+			seen = vRenderList(ch.Entities)
+			token = ch.NextToken
+		}
+	})
+	h.Go(func() { werr = ds.StoreEntities([]*Entity{mkEntity(second)}) })
+	h.Assert(h.Wait(), "reader and writer complete")
+	h.Assert(rerr == nil && werr == nil, "read and write succeed")
+	// the reader continues from its token until nothing more comes
+	for page := 0; page < 4; page++ {
+		ch, err := ds.GetChanges(token, limit, latestOnly)
+		h.Assert(err == nil, "continuation readable")
+		if err != nil || len(ch.Entities) == 0 {
+			break
+		}
+		seen = append(seen, vRenderList(ch.Entities)...)
+		token = ch.NextToken
+	}
+	want := vJoin([]string{mRender(first), mRender(second)})
+	h.Assert(vJoin(seen) == want, "a reader following its tokens sees every change exactly once, whatever is written meanwhile :: saw="+vJoin(seen)+" feed="+want)
+	h.Observe("n", len(seen))
+}
